@@ -264,6 +264,15 @@ def _deliver_guard_fd(ctx, L, rule):
             ctx.violated(rule, f, inst + " (ack)", "EOM-ack must be sent exactly when dest != GLOBAL", e.node)
         if not any(x.rule == rule and x.where == f.qual for x in ctx.findings):
             ctx.holds(rule, inst + (" [destination-specific]" if specific else " [broadcast]"))
+    # converse: a reassembly that holds exactly the announced number of bytes IS delivered - the completion test must not demand more
+    for r in runs(ctx, f):
+        if r.term in ("raise", "exc") or not any(L.is_notify(f, e) for _, e in r.effects()):
+            continue
+        if any(g == mk_cmp("<", Ps, lensym(Pd)) and p is True for g, p in lits(r.guards())):
+            ctx.violated(rule, f, "22 delivery on EOM status (complete <=> delivered)", "delivery demands MORE bytes than announced (%s): a reassembly of exactly "
+                         "the announced size - every correct transfer, after truncation - is never delivered" % pretty(mk_cmp("<", Ps, lensym(Pd)))[:80],
+                         r.recs[-1].ev.node)
+            break
     if n < 2:
         ctx.unknown(rule, "EOM-status delivery paths not found in %s (%d)" % (f.qual, n))
     # the last segment is padded to a legal frame length: the reassembly is cut to the announced size - at the latest where it is delivered
@@ -713,11 +722,16 @@ def session_fresh(ctx, L, rule="R-SESSION-FRESH"):
         ctx.unknown(rule, "%s: no receive-session record found" % f.qual)
 
 
-def dt_minlen(ctx, L, rule="R-DT-MINLEN"):
+def cm_minlen(ctx, L, rule="R-DT-MINLEN"):
+    """FD.TP.CM frames are 12 bytes long: the length plausibility test of the connection-management handler must accept them"""
+    return dt_minlen(ctx, L, rule, func=L.cm, legal=range(12, 65), what="CM", header=12)
+
+
+def dt_minlen(ctx, L, rule="R-DT-MINLEN", func=None, legal=range(5, 65), what="DT", header=4):
     """FD.TP.DT: a frame with the 4 header bytes and at least one data byte (5..64 bytes) is a legal segment - the last segment of a message
     carries 1..60 bytes.  The length plausibility test at the top of the handler must not drop such a frame."""
     from sa import guards as _G
-    f = L.dt
+    f = func or L.dt
     LEN = ("call", ("glob", "len"), (("p", "data"),), ())
     n = 0
     bad = None
@@ -755,12 +769,15 @@ def dt_minlen(ctx, L, rule="R-DT-MINLEN"):
         if not okp or not lits_:
             continue
         n += 1
-        dropped = [v for v in range(5, 65) if all(
+        dropped = [v for v in legal if all(
             ((lambda a, b: (a < b) if op == "<" else (a == b))(*[(s[1] if s[0] == "k" else v - s[1]) for s in sides])) == p for op, sides, p in lits_)]
         if dropped and bad is None:
             bad = (r, dropped)
-    inst = "%s DT length test passes every frame with a header and at least one data byte" % L.tag
-    if bad is not None:
+    inst = "%s %s length test passes every frame %s" % (L.tag, what, "with a header and at least one data byte" if what == "DT" else "of the 12 bytes a TP.CM has")
+    if bad is not None and what != "DT":
+        ctx.violated(rule, f, inst, "frames of %d..%d bytes are dropped as too short: every FD.TP.CM frame (RTS, CTS, end-of-message status ...) has 12 "
+                     "bytes - no transfer is ever opened or completed" % (bad[1][0], bad[1][-1]), f.node)
+    elif bad is not None:
         ctx.violated(rule, f, inst, "frames of %s bytes are dropped as too short although they carry %s data byte(s) after the 4 header bytes: a message "
                      "whose last segment is that short is never completed (no EndOfMsgACK, broadcast lost)" % (
                          "%d..%d" % (bad[1][0], bad[1][-1]), "%d..%d" % (bad[1][0] - 4, bad[1][-1] - 4)), f.node)
